@@ -143,7 +143,7 @@ def strip_slot(s):
 FAMILIES = {
     "C01": {"struct", "dict"}, "C02": {"struct", "leak", "dict", "set", "consume", "bulk", "clone"},
     "C03": {"struct", "full", "bulk", "leak"}, "C04": {"struct", "uniq", "dict", "set"},
-    "C05": {"struct", "uniq", "sweep"}, "C06": set(), "C07": {"struct", "set", "bulk"}, "C08": {"alg"},
+    "C05": {"struct", "uniq", "sweep"}, "C06": {"shapes"}, "C07": {"struct", "set", "bulk"}, "C08": {"alg"},
     "C09": {"iter"}, "C10": {"consume", "struct", "leak"}, "C11": {"struct", "entry", "leak"}, "C12": {"ident", "bulk"},
     "C13": {"gdm"}, "C14": {"eq"}, "C15": {"clone"}, "C16": {"bulk", "struct"}, "C17": {"struct"},
     "C18": {"struct", "unchecked"}, "C19": {"fmt", "dbg"}, "C20": {"serde"},
